@@ -25,3 +25,41 @@ pub mod bisect {
         fn b_console_writer_envstub() { let w = log4rs::encode::writer::console::ConsoleWriter::stdout(); std::mem::forget(w); }
     }
 }
+
+pub mod b13 {
+    use crate::sym;
+    use log::{LevelFilter, Record};
+    use log4rs::append::Append;
+    use log4rs::config::{Appender, Config, Logger as LoggerCfg, Root};
+    #[derive(Debug)]
+    struct Nop;
+    impl Append for Nop {
+        fn append(&self, _r: &Record) -> anyhow::Result<()> { Ok(()) }
+        fn flush(&self) {}
+    }
+    harnesses! {
+        // fully concrete configuration
+        #[kani::unwind(8)]
+        fn b_concrete() {
+            let b = Config::builder()
+                .appender(Appender::builder().build("A", Box::new(Nop)))
+                .logger(LoggerCfg::builder().appender("A").build("a::b", LevelFilter::Info));
+            let r = b.build(Root::builder().appender("A").build(LevelFilter::Warn));
+            assert!(r.is_ok());
+            std::mem::forget(r);
+        }
+        // one symbolic byte in the logger name
+        #[kani::unwind(8)]
+        fn b_one_byte() {
+            let mut nb = *b"a::b";
+            nb[3] = if sym::any_bool() { b'b' } else { b':' };
+            let name = unsafe { std::str::from_utf8_unchecked(&nb) };
+            let b = Config::builder()
+                .appender(Appender::builder().build("A", Box::new(Nop)))
+                .logger(LoggerCfg::builder().appender("A").build(name, LevelFilter::Info));
+            let r = b.build(Root::builder().appender("A").build(LevelFilter::Warn));
+            assert!(r.is_ok() == (nb[3] == b'b'));
+            std::mem::forget(r);
+        }
+    }
+}
